@@ -6,7 +6,7 @@ from .. import ref, cfgspace
 from ..ast import bind, show, walk, is_var
 
 ID = "C14"
-RULE = ("Mode G+M: EVERY configurator with 1..2 rules from a 23-rule menu (cc.Any / cc.Xor with and without default at every position, "
+RULE = ("Mode G+M: EVERY configurator with 1..2 rules from a 28-rule menu (incl. defaulted rules whose non-default alternative is a compound package shared with other rules) (cc.Any / cc.Xor with and without default at every position, "
         "pg.Any, pg.Xor, AtMost(k), All, Imply with item/All/Any conditions and item/All/defaulted consequences; explicit and generated rule "
         "ids) x EVERY priority dictionary of the alphabet (0..3 ids, values in {-3..3}\\{0}: ties, several levels, negatives, a rule id, an "
         "unknown id) -> select(*prios, solver=capture). oracle: over ALL feasible 0/1 points of the polyhedron the captured objective is "
@@ -56,7 +56,7 @@ def expected_tags(cfg_ast):
         _, kind, i, args, extra = a
         if kind in ('Any', 'Xor') and isinstance(extra, tuple) and extra and extra[0] == 'default' and extra[1]:
             d = extra[1][0]
-            ids = [x[1] for x in args]
+            ids = [(x[1] if x[0] == 'L' else x[2]) for x in args]
             if d in ids and len(ids) > 1:
                 out.append(frozenset(x for x in ids if x != d))
         for x in args:
